@@ -16,7 +16,7 @@ KINDS = ["foreign-wire", "foreign-wire-cfg", "static-as-value", "funcdefn-as-val
          "case-index-out-of-range", "case-twice", "ctx-exit-unbuilt", "cond-unbuilt-serialize",
          "mismatched-exit", "cfg-no-exit-serialize", "declared-mismatch", "func-no-outputs-serialize",
          "poly-missing-inst", "poly-arg-count", "dfg-no-outputs-serialize", "loop-no-outputs-serialize",
-         "tracked-untracked-index", "tracked-out-of-range-index"]
+         "tracked-untracked-index", "tracked-out-of-range-index", "rows-differ-in-type-arguments"]
 META = {
     "level": "exploration",
     "rule": ("case = {program AST, injection kind, site}; distinct by JSON; non-trivial when the program has >= 6 "
@@ -475,6 +475,8 @@ def run_case(ctx, case, stratum="inject"):
     kind, site, prog = case["kind"], case["site"], case["prog"]
     if kind.startswith("tracked-"):
         return run_tracked(ctx, case)
+    if kind == "rows-differ-in-type-arguments":
+        return run_same_def(ctx, case)
     it = make_interp(kind, site)
     expected, observed, where, ok = None, None, None, None
     LAST["verdict"] = LAST["stop"] = None
@@ -516,6 +518,63 @@ def run_case(ctx, case, stratum="inject"):
         ctx.count("variant:" + k2, COUNT.pop(k2))
     if not ok:
         ctx.disc(None, f"not-refused[{kind}]", where, expected, observed, stratum=stratum, case=case)
+    return True
+
+
+def run_same_def(ctx, case):
+    """two case / exit / declared rows that differ only in the ARGUMENTS of one extension type (int<2> vs int<3>,
+    array<2, bool> vs array<3, bool>, list<bool> vs list<unit>): still a disagreement"""
+    from hugr import ops, tys, val
+    from hugr.build import Cfg, Conditional, Dfg
+    from hugr.build.cond_loop import ConditionalError
+    from hugr.exceptions import MismatchedExit
+    from hugr.std.collections.array import ArrayVal
+    from hugr.std.collections.list import ListVal
+    from hugr.std.int import IntVal
+
+    pair = {"int": (IntVal(1, 2), IntVal(1, 3)),
+            "array": (ArrayVal([val.TRUE, val.TRUE], tys.Bool), ArrayVal([val.TRUE, val.TRUE, val.TRUE], tys.Bool)),
+            "list": (ListVal([], tys.Bool), ListVal([], tys.Unit))}[case["types"]]
+    if case["swap"]:
+        pair = pair[::-1]
+    a, b = pair
+    ctx.count("monitor:injection")
+    ctx.count("kind:" + case["kind"])
+    where = case["where"]
+    expected = "ConditionalError" if where == "cond" else "MismatchedExit" if where == "cfg" else "ValueError"
+    try:
+        if where == "cond":
+            c = Conditional(tys.Bool, [])
+            with c.add_case(0) as c0:
+                c0.set_outputs(c0.load(a))
+            with c.add_case(1) as c1:
+                c1.set_outputs(c1.load(b))
+        elif where == "cfg":
+            cfg = Cfg(tys.Bool)
+            with cfg.add_entry() as e:
+                e.set_block_outputs(*e.inputs())
+            with cfg.add_successor(e[0]) as b0:
+                b0.set_single_succ_outputs(b0.load(a))
+            with cfg.add_successor(e[1]) as b1:
+                b1.set_single_succ_outputs(b1.load(b))
+            cfg.branch_exit(b0[0])
+            cfg.branch_exit(b1[0])
+        else:
+            from hugr.build import Module
+
+            m = Module()
+            f = m.define_function("f", [], [a.type_()])
+            f.set_outputs(f.load(b))
+        observed = "accepted"
+    except ConditionalError:
+        observed = "ConditionalError"
+    except MismatchedExit:
+        observed = "MismatchedExit"
+    except ValueError:
+        observed = "ValueError"
+    if observed != expected:
+        ctx.disc(None, f"not-refused[{case['kind']}]", [where, case["types"]], expected, observed, stratum="inject",
+                 case=case)
     return True
 
 
@@ -562,6 +621,12 @@ def run(ctx):
     for i in ctx.mine(n):
         r = ctx.rng("inject", i)
         kind = KINDS[i % len(KINDS)]
+        if kind == "rows-differ-in-type-arguments":
+            case = {"kind": kind, "where": r.choice(["cond", "cfg", "func"]), "types": r.choice(["int", "array", "list"]),
+                    "swap": r.random() < 0.5, "site": None, "prog": None}
+            ctx.guard("inject", case, run_case, ctx, case)
+            ctx.case("inject", case, True)
+            continue
         if kind.startswith("tracked-"):
             case = {"kind": kind, "n": r.randint(0, 5), "prefix": r.randint(0, 3), "over": r.randint(0, 3),
                     "api": r.randrange(3), "site": None, "prog": None}
